@@ -719,7 +719,8 @@ def _main(chk, replay=None):
                                   + ([sn["res"]["cmd"]] if sn else [])),
         "trace_states": sum(r["st"]["trace_states"] for r in runs.values()) + (sn["tv"]["states"] if sn else 0),
         "model_coverage_zero": zero, "timing": {n: r["timing"] for n, r in runs.items()},
-        "accept_spellings_used": {k: n for r in runs.values() for k, n in sorted(r["st"]["spellings"].items()) if k[:2] in ("AW", "AG", "AO")},
+        "accept_spellings_used": {k: sum(r["st"]["spellings"].get(k, 0) for r in runs.values())
+                                  for k in sorted({k for r in runs.values() for k in r["st"]["spellings"]}) if k[:2] in ("AW", "AG", "AO")},
         "model_follows_code_reading_of_glued_accept": GLUED,
         "constants_bound": bound, "shipped": shipped, "waptop": waptop, "model_follows_unrepaired_gopherplus": raises,
         "bindings": ["B1 shipped order + waptop from conf/pygopherd.conf", "B2 every TLC-enumerated case replayed through the real "
